@@ -27,7 +27,26 @@ ASSUMPTIONS = ["the objective handed to the library is the double-precision func
                "'not worse than the start' is evaluated on that function (bit-exact re-evaluation), the convergence clause on "
                "its exact rational value with a running rounding-error allowance",
                "no FMA contraction / excess precision in the harness build (x86-64 SSE2, -O1)"]
-TRUSTED = ["props/c11.py reverse-Polish interpreters (float and Fraction), harness/c11.cpp interpreter"]
+TRUSTED = ["translators/constants.py (regenerates lean/LpModel/C11/Constants.lean from the anchored numeric literals of the current source before every lake build; a missing anchor falls back to the committed default and is recorded in notes.pre_build.anchor_missing)",
+           "props/c11.py reverse-Polish interpreters (float and Fraction), harness/c11.cpp interpreter"]
+
+# ---------------------------------------------------------------------------------------------------
+# translator tie (DESIGN.md §4.5): the numeric literals of src/Numerics.cpp (Bracket, Brent, Nelder-Mead) the model depends on
+# ---------------------------------------------------------------------------------------------------
+
+def _constants_translator(verif):
+    import importlib.util, os
+    spec = importlib.util.spec_from_file_location("lp_constants_tr", os.path.join(verif, "translators", "constants.py"))
+    m = importlib.util.module_from_spec(spec)
+    spec.loader.exec_module(m)
+    return m
+
+
+def pre_build(c):
+    """regenerate lean/LpModel/C11/Constants.lean from the repository under check (called by check.py with
+    the lake lock held, before `lake build`); a missing anchor is recorded, never an alarm"""
+    return _constants_translator(c["verif"]).regenerate("C11", c["repo"], c["lean"])
+
 
 TINY_BITS = 30          # a model margin below 2^-30 excuses a divergence (DESIGN.md §4, class C)
 U = Fraction(1, 2 ** 53)
